@@ -151,7 +151,24 @@ def r3(ctx):
     ctx.obligation(ok)
     if not ok:
         ctx.violation("visited/inodes", ctx.where(OK_TO_VISIT), "ok_to_visit_dir must record the inodes it lets through")
-    ctx.covered("visited-set discipline (canonical key, before listing, inode set)", 3, distinct_keys=["key", "order", "inodes"])
+    # "once per query": the two visited sets only grow during a query - nothing in the crate clears, drains, replaces or
+    # removes from them (a per-root reset lets a second root list a directory the first one reached through a link)
+    shrink = []
+    for fname in sorted(ctx.prog.fns):
+        fh = ctx.prog.hir(fname) if "{closure" not in fname else None
+        if fh is None:
+            continue
+        for c in walk_exprs(fh):
+            if c["k"] == "MCall" and c["m"] in ("clear", "remove", "drain", "retain", "take", "split_off") and \
+                    any(w in render(c["recv"]) for w in ("visited_dirs", "visited_inodes")):
+                shrink.append((fname, c))
+            if c["k"] == "Assign" and c["l"]["k"] == "Field" and c["l"]["name"] in ("visited_dirs", "visited_inodes") and not fname.endswith("::new"):
+                shrink.append((fname, c))
+    ctx.obligation(not shrink)
+    for fname, c in shrink:
+        ctx.violation("visited/reset/%s" % short(fname, 1), ctx.where(fname, c),
+                      "`%s` empties or replaces a visited set during the query: a directory reachable from two roots is then listed once per root, not once per query" % render(c)[:80])
+    ctx.covered("visited-set discipline (canonical key, before listing, inode set, sets only grow)", 4, distinct_keys=["key", "order", "inodes", "grow-only"])
 
 
 def r4(ctx):
